@@ -1039,12 +1039,12 @@ func nativeReplay(pkgRel string, harnessDirs []string, cs []candidate) ([]replay
 			// the first case of this batch took the whole test process down (runtime fatal error such as a stack
 			// overflow, os.Exit, log.Fatal) before any result line: that is this case's native result
 			so := string(out)
-			if strings.Contains(so, "[build failed]") || strings.Contains(so, "[setup failed]") || !(strings.Contains(so, "fatal error:") || strings.Contains(so, "exit status") || strings.Contains(so, "signal:")) {
+			if strings.Contains(so, "[build failed]") || strings.Contains(so, "[setup failed]") || !(strings.Contains(so, "fatal error:") || strings.Contains(so, "exit status") || strings.Contains(so, "signal:") || strings.Contains(so, "\npanic: ")) {
 				return nil, fmt.Errorf("no replay output: %s", tail(so, 1500))
 			}
 			why := "exit"
 			for _, l := range strings.Split(so, "\n") {
-				if strings.HasPrefix(l, "fatal error:") || strings.HasPrefix(l, "runtime: goroutine stack exceeds") {
+				if strings.HasPrefix(l, "fatal error:") || strings.HasPrefix(l, "runtime: goroutine stack exceeds") || strings.HasPrefix(l, "panic: ") {
 					why = l
 					break
 				}
